@@ -179,8 +179,10 @@ func c10CheckLibraryFile(c *kit.Case, d *gen.CryptDoc, ivs map[string]bool) {
 			if t := stm.Dict["Type"]; t == kit.XName("XRef") {
 				continue
 			}
-			if stm.Dict["Type"] == kit.XName("Metadata") && !sec.EncryptMetadata {
-				continue // exempt
+			if stm.Dict["Type"] == kit.XName("Metadata") && !sec.EncryptMetadata && bytes.HasPrefix(bytes.TrimLeft(stm.Raw, "\xef\xbb\xbf \r\n"), []byte("<?xpacket")) {
+				// the document-level metadata stream, stored in the clear (other
+				// streams of /Type /Metadata are encrypted like any stream)
+				continue
 			}
 			allEnc = append(allEnc, c10Enc{stm.Raw, num, o.Gen, "stream"})
 			c10Collect(stm.Dict, num, o.Gen, &allEnc)
